@@ -36,6 +36,13 @@ def worker_main(spec):
     from vf import engine, findings, sandbox
     prop = load_prop(spec["prop"])
     tier = spec["tier"]
+    try:
+        # an endless allocation loop in the code under test becomes a MemoryError there, not an OOM-killed worker
+        import resource
+        lim = int(os.environ.get("VERIF_WORKER_MEM", str(8 * 2 ** 30)))
+        resource.setrlimit(resource.RLIMIT_AS, (lim, lim))
+    except (ImportError, ValueError, OSError):
+        pass
     stats = engine.Stats()
     known = set(spec["known_sigs"])
     result = {"violations": [], "error": None}
